@@ -206,7 +206,7 @@ def run(ctx):
         return problems, first, model_case
     results = core.pmap(one, range(len(jobs)), workers=12)
     mcases = [(i, r[2]) for i, r in enumerate(results) if r[2] is not None]
-    mres = dict(zip([i for i, _ in mcases], ctx.model([c for _, c in mcases]))) if mcases else {}
+    mres = dict(zip([i for i, _ in mcases], ctx.model(c03.fill_tables(ctx, [c for _, c in mcases])))) if mcases else {}
     seen, nt = set(), 0
     dist = {"struct": 0, "bytes": 0, "graph": 0, "bkl_ok": 0, "bkl_err": 0, "model_compared": 0, "model_circular": 0}
     for i, ((kind, payload, r), (problems, first, mc)) in enumerate(zip(jobs, results)):
